@@ -514,6 +514,11 @@ func standardizeAddress(str string) (Address, error) {
 		}
 	}
 
+	// a port is a number: 080 is port 80 (it is compared as text below and elsewhere)
+	if n, err := strconv.Atoi(port); err == nil && n >= 0 {
+		port = strconv.Itoa(n)
+	}
+
 	// see if we can set port based off scheme
 	if port == "" {
 		if u.Scheme == "http" {
